@@ -64,22 +64,20 @@ CHECKS = {
         "(ii) is FALSE for the pooled flavour with long arcs: known finding D1, suppressed only where the Coq model of the unchanged code hands out the same node.",
    note=DNOTE,
    technique=DTECH),
- "C12": dict(cat="other", design="7.12",
-   text="callback protocol. An executable Coq model of the three diagram implementations (Mdd.v: clean LEL / frontier / pooled, one parametric transliteration) is compared "
-        "with the code on every compilation of the stream (API results, drained cut-set, full DOT dump with node ids/flags/bounds/thresholds/edges, callback log): "
-        "any behavioural change of the diagram code breaks the correspondence. The property's clauses are evaluated on the implementation's answers with the "
-        "extracted Coq specification (exhaustive enumeration of the sub-problem) as oracle. Theorems about the model are registered in Props/C12.v as they are "
-        "closed; the semantic bound/cover theorems are still open obligations (listed in the evidence).",
-   note=TB + "Hash-map iteration order is abstracted (layers sorted by a total DominanceChecker comparator; tie among equally valued terminals = oracle argument).",
-   technique="executable Coq model + differential correspondence + specification oracle; partial Coq theorems"),
- "C13": dict(cat="other", design="7.13",
-   text="maximum width bounds the work per layer; combinators never yield 0. An executable Coq model of the three diagram implementations (Mdd.v: clean LEL / frontier / pooled, one parametric transliteration) is compared "
-        "with the code on every compilation of the stream (API results, drained cut-set, full DOT dump with node ids/flags/bounds/thresholds/edges, callback log): "
-        "any behavioural change of the diagram code breaks the correspondence. The property's clauses are evaluated on the implementation's answers with the "
-        "extracted Coq specification (exhaustive enumeration of the sub-problem) as oracle. Theorems about the model are registered in Props/C13.v as they are "
-        "closed; the semantic bound/cover theorems are still open obligations (listed in the evidence).",
-   note=TB + "Hash-map iteration order is abstracted (layers sorted by a total DominanceChecker comparator; tie among equally valued terminals = oracle argument).",
-   technique="executable Coq model + differential correspondence + specification oracle; partial Coq theorems"),
+ "C12": dict(cat="proof", design="7.12",
+   text="Callback protocol. Closed Coq theorems about the chronological call log of ANY compilation (all three flavours, all types, any outcome): C12_callback_protocol (transition_cost only with "
+        "dst = transition(src, d), d in the domain of its variable at src, the variable being the last next_variable result; merge on >= 2 states; relax with merged = the state just returned by "
+        "merge and dst among the merged states, cost = the current cost of a genuine arc), C12_callbacks_only_on_states_of_the_layer (domains / transitions / costs only from states handed to the last "
+        "next_variable call or returned by a merge since; merge members and relax targets likewise; nothing before the first next_variable call), C12_next_variable_depths. " + DIA,
+   note=DNOTE,
+   technique=DTECH),
+ "C13": dict(cat="proof", design="7.13",
+   text="Maximum width bounds the work per layer; combinators never yield 0. Closed Coq theorems on the call log: C13_restricted_width (all flavours), C13_relaxed_width_clean and C13_relaxed_width_pooled "
+        "(the latter under the property's own premise that every state is impacted by every variable; shown necessary), exempting the root layer and the first layer below it (shown tight); "
+        "Times / DivBy never 0 in the debug (panic on overflow) and release (wrap-around) arithmetic. Tied to the code by the call-log correspondence and a grid + random differential run of the "
+        "combinators. " + DIA,
+   note=DNOTE,
+   technique=DTECH),
  "C20": dict(cat="other", design="7.20",
    text="as_graphviz total and faithful. An executable Coq model of the three diagram implementations (Mdd.v: clean LEL / frontier / pooled, one parametric transliteration) is compared "
         "with the code on every compilation of the stream (API results, drained cut-set, full DOT dump with node ids/flags/bounds/thresholds/edges, callback log): "
